@@ -169,6 +169,10 @@ func init() {
 			}},
 		Site{Module: mod, Pkg: pkg, Func: "Pipe", Name: "senderWiring", Kind: Custom, Text: "PipeSender", Custom: wiring},
 		Site{Module: mod, Pkg: pkg, Func: "Pipe", Name: "receiverWiring", Kind: Custom, Text: "pipeStream", Custom: wiring},
+		// stream.Chan
+		Site{Module: mod, Pkg: pkg, Func: "chanStream.Next", Name: "chanNextArms", Kind: Select, Sel: "select[0]"},
+		armBodies("chanStream.Next", "chanNextBodies", "select[0]"),
+		Site{Module: mod, Pkg: pkg, Func: "chanStream.Next", Name: "chanNextSelects", Kind: Custom, Custom: countSelects},
 		// Close
 		Site{Module: mod, Pkg: pkg, Func: "PipeSender.Close", Name: "senderCloseStmts", Kind: StmtList},
 		Site{Module: mod, Pkg: pkg, Func: "pipeStream.Close", Name: "receiverCloseStmts", Kind: StmtList},
